@@ -259,10 +259,16 @@ mod state {
         [(TimeUnit::Hours, "Hours"), (TimeUnit::Minutes, "Minutes"), (TimeUnit::Seconds, "Seconds"), (TimeUnit::Milliseconds, "Milliseconds")];
     const ENERGY: [(EnergyUnit, &str); 3] =
         [(EnergyUnit::GallonsGasoline, "GallonsGasoline"), (EnergyUnit::GallonsDiesel, "GallonsDiesel"), (EnergyUnit::KilowattHours, "KilowattHours")];
-    const NAMES: [&str; 12] = [
+    const NAMES: [&str; 14] = [
         "distance", "time", "energy_electric", "energy_liquid", "battery_state", "trip_distance", "trip_time", "leg_energy", "soc",
-        "flag", "count", "odo",
+        "flag", "count", "odo", "miles", "seconds",
     ];
+    /// free-text labels of custom features: ordinary ones and the serde name of every built-in unit of every family
+    const LABELS: [&str; 17] = [
+        "percent", "none", "items", "meters", "kilometers", "miles", "inches", "feet", "hours", "minutes", "seconds", "milliseconds",
+        "gallons_gasoline", "gallons_diesel", "kilowatt_hours", "distance", "unit",
+    ];
+    const TYPES: [&str; 9] = ["soc", "flag", "count", "distance", "time", "energy", "miles", "kilowatt_hours", "range"];
     const GHOST: &str = "ghost";
 
     // ---------------------------------------------------------------- case description
@@ -300,6 +306,8 @@ mod state {
         SetI(String, i64),
         SetU(String, u64),
         SetB(String, bool),
+        /// state[i] = x, written directly as a traversal model would
+        Poke(usize, f64),
     }
     #[derive(Clone, Debug)]
     pub struct Case {
@@ -364,9 +372,13 @@ mod state {
             Op::SetI(n, z) => json!(["seti", n, z]),
             Op::SetU(n, z) => json!(["setu", n, z]),
             Op::SetB(n, b) => json!(["setb", n, b]),
+            Op::Poke(i, x) => json!(["poke", i, fj(*x), format!("{:?}", x)]),
         }
     }
     fn op_from(v: &Value) -> Op {
+        if v[0].as_str() == Some("poke") {
+            return Op::Poke(v[1].as_u64().unwrap() as usize, jf(&v[2]));
+        }
         let n = v[1].as_str().unwrap().to_string();
         let us = |i: usize| v[i].as_u64().unwrap() as usize;
         match v[0].as_str().unwrap() {
@@ -384,6 +396,26 @@ mod state {
             "setu" => Op::SetU(n, v[2].as_u64().unwrap()),
             _ => Op::SetB(n, v[2].as_bool().unwrap()),
         }
+    }
+    /// a sequence of queries on one application: the first in the old single-query form, the others under "more"
+    fn multi_json(steps: &[Case]) -> Value {
+        let mut v = case_json(&steps[0]);
+        if steps.len() > 1 {
+            v["more"] = Value::Array(steps[1..].iter().map(case_json).collect());
+        }
+        v
+    }
+    fn multi_from(v: &Value) -> Vec<Case> {
+        let first = case_from(v);
+        let mut out = vec![first.clone()];
+        if let Some(more) = v.get("more").and_then(|m| m.as_array()) {
+            for m in more {
+                let mut c = case_from(m);
+                c.cfg = first.cfg.clone();
+                out.push(c);
+            }
+        }
+        out
     }
     fn case_json(c: &Case) -> Value {
         json!({
@@ -460,6 +492,7 @@ mod state {
             Op::SetI(n, z) => format!("OSetI {} {}", coq_string(n), coq_z(*z as i128)),
             Op::SetU(n, z) => format!("OSetU {} {}", coq_string(n), coq_z(*z as i128)),
             Op::SetB(n, b) => format!("OSetB {} {}", coq_string(n), coq_bool(*b)),
+            Op::Poke(i, x) => format!("OPoke {} {}", coq_nat(*i), coq_f64(*x)),
         }
     }
 
@@ -514,16 +547,20 @@ mod state {
             Ok(())
         }
     }
-    struct TmService(Arc<StubTraversal>);
+    /// the services build the model of the query at hand (as a vehicle model picked by the query would be)
+    fn step_of(q: &Value) -> usize {
+        q.get("__step").and_then(|x| x.as_u64()).unwrap_or(0) as usize
+    }
+    struct TmService(Vec<Arc<StubTraversal>>);
     impl TraversalModelService for TmService {
-        fn build(&self, _q: &Value) -> Result<Arc<dyn TraversalModel>, TraversalModelError> {
-            Ok(self.0.clone())
+        fn build(&self, q: &Value) -> Result<Arc<dyn TraversalModel>, TraversalModelError> {
+            Ok(self.0[step_of(q)].clone())
         }
     }
-    struct AmService(Arc<StubAccess>);
+    struct AmService(Vec<Arc<StubAccess>>);
     impl AccessModelService for AmService {
-        fn build(&self, _q: &Value) -> Result<Arc<dyn AccessModel>, AccessModelError> {
-            Ok(self.0.clone())
+        fn build(&self, q: &Value) -> Result<Arc<dyn AccessModel>, AccessModelError> {
+            Ok(self.0[step_of(q)].clone())
         }
     }
 
@@ -711,6 +748,12 @@ mod state {
                 sm.set_custom_bool(st, n, b)?;
                 Val::None
             }
+            Op::Poke(i, x) => {
+                if *i < st.len() {
+                    st[*i] = StateVar(*x);
+                }
+                Val::None
+            }
         })
     }
 
@@ -722,14 +765,50 @@ mod state {
     ///   direct  StateModel::try_from(config JSON) . extend(collect_features(query, traversal model, access model))
     ///   app     SearchApp::new(..).build_search_instance(query).state_model
     /// returns the I payload and the observations of the op sequence
-    fn run_impl(c: &Case, probes: &[String]) -> (String, Vec<Obs>) {
-        let tm = Arc::new(StubTraversal(features(&c.tm)));
-        let am = Arc::new(StubAccess(features(&c.am)));
-        let query = query_of(c);
-        let configured = match StateModel::try_from(&features_json(&c.cfg)) {
+    fn run_impl(steps: &[Case], probes: &[String]) -> (String, Vec<Vec<Obs>>) {
+        let configured = match StateModel::try_from(&features_json(&steps[0].cfg)) {
             Ok(m) => Arc::new(m),
             Err(e) => return (format!("R=Err config:{}", class(&e)), vec![]),
         };
+        let tms: Vec<Arc<StubTraversal>> = steps.iter().map(|c| Arc::new(StubTraversal(features(&c.tm)))).collect();
+        let ams: Vec<Arc<StubAccess>> = steps.iter().map(|c| Arc::new(StubAccess(features(&c.am)))).collect();
+        // ONE application for the whole sequence of queries
+        let app = SearchApp::new(
+            SearchAlgorithm::Dijkstra,
+            empty_graph(),
+            configured.clone(),
+            Arc::new(TmService(tms.clone())),
+            Arc::new(AmService(ams.clone())),
+            CostModelService {
+                vehicle_rates: Arc::new(HashMap::new()),
+                network_rates: Arc::new(HashMap::new()),
+                weights: Arc::new(HashMap::new()),
+                cost_aggregation: CostAggregation::Sum,
+                ignore_unknown_weights: true,
+            },
+            Arc::new(NoRestriction {}),
+            TerminationModel::IterationsLimit { limit: 1 },
+        );
+        let mut payloads = vec![];
+        let mut all_obs = vec![];
+        for (k, c) in steps.iter().enumerate() {
+            let (p, o) = run_step(&app, &configured, k, c, tms[k].clone(), ams[k].clone(), probes);
+            payloads.push(p);
+            all_obs.push(o);
+        }
+        (payloads.join(" || "), all_obs)
+    }
+
+    fn run_step(
+        app: &SearchApp,
+        configured: &Arc<StateModel>,
+        k: usize,
+        c: &Case,
+        tm: Arc<StubTraversal>,
+        am: Arc<StubAccess>,
+        probes: &[String],
+    ) -> (String, Vec<Obs>) {
+        let query = query_of(c);
         let direct: Result<StateModel, String> = match catch(AssertUnwindSafe(|| {
             collect_features(&query, tm.clone(), am.clone()).and_then(|fs| configured.extend(fs))
         })) {
@@ -747,41 +826,29 @@ mod state {
         };
         // the same through SearchApp::build_search_instance; the cost model needs one weighted feature
         let mut app_query = query.clone();
+        app_query["__step"] = json!(k);
         let first = direct.as_ref().ok().and_then(|m| m.iter().next().map(|(n, _)| n.clone()));
         let mut payload = direct_s.clone();
         let mut model: Option<Arc<StateModel>> = direct.ok().map(Arc::new);
+        let mut init = init;
         if first.is_some() || model.is_none() {
             if let Some(n) = &first {
                 app_query["weights"] = json!({ n.clone(): 1.0 });
             }
-            let app = SearchApp::new(
-                SearchAlgorithm::Dijkstra,
-                empty_graph(),
-                configured.clone(),
-                Arc::new(TmService(tm.clone())),
-                Arc::new(AmService(am.clone())),
-                CostModelService {
-                    vehicle_rates: Arc::new(HashMap::new()),
-                    network_rates: Arc::new(HashMap::new()),
-                    weights: Arc::new(HashMap::new()),
-                    cost_aggregation: CostAggregation::Sum,
-                    ignore_unknown_weights: true,
-                },
-                Arc::new(NoRestriction {}),
-                TerminationModel::IterationsLimit { limit: 1 },
-            );
             let via_app = match catch(AssertUnwindSafe(|| app.build_search_instance(&app_query))) {
                 Err(_) => "R=Panic".to_string(),
                 Ok(Err(SearchError::StateFailure { source })) => format!("R=Err {}", class(&source)),
                 Ok(Err(e)) => format!("R=Err other:{}", e),
                 Ok(Ok(si)) => {
-                    let s = show_struct(&si.state_model, probes).0;
+                    let (s, i) = show_struct(&si.state_model, probes);
+                    // the operations below run on the model and the initial state the application hands out
                     model = Some(si.state_model.clone());
+                    init = Some(i);
                     s
                 }
             };
             if via_app != direct_s {
-                payload += &format!(" APPDIFF({})", via_app);
+                payload = format!("{} APPDIFF(collect_features+extend: {})", via_app, direct_s);
             }
         }
         let mut obs = vec![];
@@ -821,28 +888,49 @@ mod state {
     }
 
     fn add_case(st: &mut Stream, c: Case, family: &str) {
-        let id = st.next_id();
-        let mut probes: Vec<String> = NAMES.iter().map(|s| s.to_string()).collect();
-        probes.push(GHOST.to_string());
-        let cc = c.clone();
-        let pp = probes.clone();
-        let (payload, obs) = catch(AssertUnwindSafe(move || run_impl(&cc, &pp))).unwrap_or_else(|e| (format!("PANIC {}", e), vec![]));
-        let args = format!(
-            "{} {} {} {} {} {}",
-            coq_entries(&c.cfg),
+        add_multi(st, vec![c], family)
+    }
+    fn coq_step(c: &Case) -> String {
+        format!(
+            "({}, {}, {}, {})",
             coq_entries(&c.tm),
             coq_entries(&c.am),
             coq_user(&c.user),
-            coq_list(&probes, |p| coq_string(p)),
             coq_list(&c.ops, |o| format!("({})", coq_op(o)))
-        );
+        )
+    }
+    fn add_multi(st: &mut Stream, steps: Vec<Case>, family: &str) {
+        let id = st.next_id();
+        let mut probes: Vec<String> = NAMES.iter().map(|s| s.to_string()).collect();
+        probes.push(GHOST.to_string());
+        let cc = steps.clone();
+        let pp = probes.clone();
+        let (payload, obs) = catch(AssertUnwindSafe(move || run_impl(&cc, &pp))).unwrap_or_else(|e| (format!("PANIC {}", e), vec![]));
+        let args = format!("{} {} {}", coq_entries(&steps[0].cfg), coq_list(&probes, |p| coq_string(p)), coq_list(&steps, coq_step));
         let terms = vec![
             format!("line_state_m {} {}", id, args),
-            format!("line_state_s {} {} {}", id, args, coq_list(&obs, coq_obs)),
+            format!("line_state_s {} {} {}", id, args, coq_list(&obs, |os| coq_list(os, coq_obs))),
         ];
+        st.count(&format!("family:{}", family));
+        st.count(&format!("queries_on_one_app:{}", steps.len()));
+        let mut nontrivial = steps.len() > 1;
+        for (k, c) in steps.iter().enumerate() {
+            let step_payload = payload.split(" || ").nth(k).unwrap_or("");
+            nontrivial |= count_step(st, c, step_payload);
+        }
+        if nontrivial {
+            st.mark_nontrivial(&multi_json(&steps).to_string());
+        }
+        let mut desc = multi_json(&steps);
+        desc["id"] = json!(id);
+        desc["family"] = json!(family);
+        st.case(terms, vec![format!("I {} {}", id, payload)], desc);
+    }
+    /// histogram of one query; returns whether it is non-trivial by the stream's rule
+    fn count_step(st: &mut Stream, c: &Case, payload: &str) -> bool {
+        let c = c.clone();
         let fin = final_def(&c);
         let defs = c.cfg.len() + c.tm.len() + c.am.len() + if let User::Some(l) = &c.user { l.len() } else { 0 };
-        st.count(&format!("family:{}", family));
         st.count(&format!("features:{}", fin.len().min(12)));
         st.count(&format!("cfg:{}", c.cfg.len()));
         st.count(&format!("model_features:{}", c.tm.len() + c.am.len()));
@@ -862,6 +950,28 @@ mod state {
                 Feat::Custom(_, _, Fmt::U(_)) => "kind:custom_unsigned",
                 Feat::Custom(_, _, Fmt::B(_)) => "kind:custom_bool",
             });
+        }
+        let user_l: Vec<(String, Feat)> = if let User::Some(l) = &c.user { l.clone() } else { vec![] };
+        for (_, f) in c.cfg.iter().chain(user_l.iter()) {
+            // these went through serde
+            if let Feat::Custom(_, u, fm) = f {
+                if LABELS[3..15].contains(&u.as_str()) {
+                    st.count("deserialised_custom_with_builtin_unit_label");
+                }
+                match fm {
+                    Fmt::U(z) if *z > u64::MAX - 2048 => st.count("initial_near_u64_max"),
+                    Fmt::I(z) if *z > i64::MAX - 1024 || *z < i64::MIN + 1024 => st.count("initial_near_i64_end"),
+                    _ => {}
+                }
+            }
+        }
+        for o in &c.ops {
+            match o {
+                Op::Poke(_, _) => st.count("op:poke"),
+                Op::SetU(_, z) if *z > u64::MAX - 2048 => st.count("op:set_near_u64_max"),
+                Op::SetI(_, z) if *z > i64::MAX - 1024 || *z < i64::MIN + 1024 => st.count("op:set_near_i64_end"),
+                _ => {}
+            }
         }
         let redefined = defs > fin.len();
         if redefined {
@@ -885,13 +995,7 @@ mod state {
         if fin.len() >= 5 {
             st.count("crosses_4_to_5");
         }
-        if fin.len() >= 5 || redefined {
-            st.mark_nontrivial(&case_json(&c).to_string());
-        }
-        let mut desc = case_json(&c);
-        desc["id"] = json!(id);
-        desc["family"] = json!(family);
-        st.case(terms, vec![format!("I {} {}", id, payload)], desc);
+        fin.len() >= 5 || redefined
     }
 
     fn s(x: &str) -> String {
@@ -930,26 +1034,53 @@ mod state {
             }
         }
     }
+    /// i64 values: small ones, the edge of exact representation (2^53 +- 2), the ends of the range (the MAX / MIN
+    /// "unset" sentinels and their neighbours across the rounding boundaries), anything in between
     fn gen_int(r: &mut Rng, signed: bool) -> i64 {
-        let v = match r.below(6) {
+        let v = match r.below(9) {
             0 => 0,
             1 => 1,
             2 => r.range(0, 1000),
             3 => r.range(0, 1 << 40),
-            4 => (1i64 << 53) - r.range(0, 2),
+            4 => (1i64 << 53) + r.range(-2, 2),
+            5 => i64::MAX - *r.pick(&[0i64, 1, 511, 512, 513, 1023, 1024, 1025, 2047]),
+            6 => i64::MAX,
+            7 => (r.next_u64() >> 1) as i64,
             _ => r.range(0, (1i64 << 62) - 1),
         };
         if signed && r.chance(1, 3) {
-            -v
+            if r.chance(1, 4) {
+                i64::MIN + *r.pick(&[0i64, 1, 512, 1024, 1025])
+            } else {
+                -v
+            }
         } else {
             v
         }
+    }
+    /// u64 values: as above plus everything beyond i64::MAX up to u64::MAX
+    fn gen_u64(r: &mut Rng) -> u64 {
+        match r.below(6) {
+            0 => u64::MAX,
+            1 => u64::MAX - *r.pick(&[0u64, 1, 1023, 1024, 1025, 2047, 2048, 2049, 4095]),
+            2 => (1u64 << 63) + *r.pick(&[0u64, 1, 1024, 1025, 2048]),
+            3 => r.next_u64(),
+            _ => gen_int(r, false) as u64,
+        }
+    }
+    /// raw state-vector values a model can leave in a slot: not integers, out of every integer range, NaN
+    fn gen_poke(r: &mut Rng) -> f64 {
+        *r.pick(&[
+            f64::NAN, f64::INFINITY, f64::NEG_INFINITY, -0.0, 0.0, -0.5, 0.5, -1.0, 3.99, -3.99, 1e30, -1e30,
+            9007199254740994.0, 9223372036854775808.0, -9223372036854775808.0, -9223372036854777856.0, 9223372036854774784.0,
+            18446744073709551616.0, 18446744073709549568.0, 36893488147419103232.0,
+        ])
     }
     fn gen_fmt(r: &mut Rng) -> Fmt {
         match r.below(4) {
             0 => Fmt::F(gen_value(r)),
             1 => Fmt::I(gen_int(r, true)),
-            2 => Fmt::U(gen_int(r, false) as u64),
+            2 => Fmt::U(gen_u64(r)),
             _ => Fmt::B(r.chance(1, 2)),
         }
     }
@@ -962,8 +1093,8 @@ mod state {
             1 => t(r.below(4) as usize, gen_value(r)),
             2 => e(r.below(3) as usize, gen_value(r)),
             _ => {
-                let ty = *r.pick(&["soc", "flag", "count", "distance", "time"]);
-                let unit = *r.pick(&["percent", "none", "items"]);
+                let ty = *r.pick(&TYPES);
+                let unit = *r.pick(&LABELS);
                 cu(ty, unit, gen_fmt(r))
             }
         }
@@ -979,7 +1110,7 @@ mod state {
                     match fm {
                         Fmt::F(_) => Fmt::F(gen_value(r)),
                         Fmt::I(_) => Fmt::I(gen_int(r, true)),
-                        Fmt::U(_) => Fmt::U(gen_int(r, false) as u64),
+                        Fmt::U(_) => Fmt::U(gen_u64(r)),
                         Fmt::B(b) => Fmt::B(!*b),
                     }
                 } else {
@@ -1000,6 +1131,22 @@ mod state {
                 (n, Some(f))
             };
             let wrong = r.chance(1, 10);
+            // a raw write into the slot of a custom feature, followed (usually) by a read through its codec
+            if let Some(Feat::Custom(_, _, fm)) = &feat {
+                if r.chance(1, 5) {
+                    if let Some(i) = fin.iter().position(|(m, _)| *m == name) {
+                        ops.push(Op::Poke(i, gen_poke(r)));
+                        ops.push(match (fm, r.chance(1, 6)) {
+                            (_, true) => Op::GetU(name),
+                            (Fmt::F(_), _) => Op::GetF(name),
+                            (Fmt::I(_), _) => Op::GetI(name),
+                            (Fmt::U(_), _) => Op::GetU(name),
+                            (Fmt::B(_), _) => Op::GetB(name),
+                        });
+                        continue;
+                    }
+                }
+            }
             let op = match (&feat, wrong) {
                 (Some(Feat::Unit(fam, _, _)), false) => {
                     let u = r.below(fam_units(*fam) as u64) as usize;
@@ -1018,7 +1165,7 @@ mod state {
                     (Fmt::I(_), true) => Op::GetI(name),
                     (Fmt::I(_), false) => Op::SetI(name, gen_int(r, true)),
                     (Fmt::U(_), true) => Op::GetU(name),
-                    (Fmt::U(_), false) => Op::SetU(name, gen_int(r, false) as u64),
+                    (Fmt::U(_), false) => Op::SetU(name, gen_u64(r)),
                     (Fmt::B(_), true) => Op::GetB(name),
                     (Fmt::B(_), false) => Op::SetB(name, r.chance(1, 2)),
                 },
@@ -1037,7 +1184,7 @@ mod state {
                         7 => Op::GetB(name),
                         8 => Op::SetF(name, gen_value(r)),
                         9 => Op::SetI(name, gen_int(r, true)),
-                        10 => Op::SetU(name, gen_int(r, false) as u64),
+                        10 => Op::SetU(name, gen_u64(r)),
                         _ => Op::SetB(name, r.chance(1, 2)),
                     }
                 }
@@ -1219,6 +1366,139 @@ mod state {
         add_case(st, c, "accessor_errors_and_codecs");
     }
 
+    /// families added for the label / sequence / top-of-range findings
+    fn boundary2(st: &mut Stream) {
+        let case = |cfg: Vec<(String, Feat)>, tm: Vec<(String, Feat)>, am: Vec<(String, Feat)>, user: User| Case { cfg, tm, am, user, ops: vec![] };
+        // a custom feature whose free-text unit label is the name of a built-in unit, configured and as a query
+        // override (both go through serde), under an ordinary name and under a name that is a unit name itself
+        for (i, label) in LABELS[3..15].iter().enumerate() {
+            let name = ["miles", "seconds", "odo"][i % 3];
+            let c = case(
+                vec![(s("soc"), cu("range", label, Fmt::F(42.5))), (s("flag"), cu(label, label, Fmt::B(true)))],
+                vec![(s(name), cu("count", label, Fmt::U(7)))],
+                vec![],
+                User::Some(vec![(s(name), cu("count", label, Fmt::U(9 + i as u64)))]),
+            );
+            add_case(st, with_probe_ops(c), "custom_label_is_builtin_unit");
+            let c = case(vec![(s("count"), cu("count", label, Fmt::I(-3 - i as i64)))], vec![(s("distance"), d(i % 5, 1.0))], vec![], User::None);
+            add_case(st, with_probe_ops(c), "custom_label_is_builtin_unit");
+        }
+        // the ends of the integer ranges: as initial values (configured, and set by a query), written and read back,
+        // and left in the slot by a raw write
+        let mut c = case(
+            vec![
+                (s("count"), cu("count", "items", Fmt::U(u64::MAX))),
+                (s("odo"), cu("count", "items", Fmt::I(i64::MAX))),
+                (s("soc"), cu("count", "items", Fmt::I(i64::MIN))),
+                (s("flag"), cu("count", "items", Fmt::I((1i64 << 53) + 1))),
+                (s("miles"), cu("count", "items", Fmt::U((1u64 << 53) - 1))),
+                (s("seconds"), cu("flag", "none", Fmt::B(false))),
+                (s("battery_state"), cu("soc", "percent", Fmt::F(50.0))),
+            ],
+            vec![(s("trip_time"), cu("count", "items", Fmt::U(0)))],
+            vec![],
+            User::Some(vec![(s("trip_time"), cu("count", "items", Fmt::U(u64::MAX - 1)))]),
+        );
+        c.ops = vec![
+            Op::GetU(s("count")),
+            Op::GetI(s("odo")),
+            Op::GetI(s("soc")),
+            Op::GetI(s("flag")),
+            Op::GetU(s("miles")),
+            Op::GetU(s("trip_time")),
+            Op::SetU(s("count"), u64::MAX - 1024),
+            Op::GetU(s("count")),
+            Op::SetU(s("count"), u64::MAX - 1025),
+            Op::GetU(s("count")),
+            Op::SetU(s("count"), (1u64 << 63) + 1025),
+            Op::GetU(s("count")),
+            Op::SetU(s("count"), u64::MAX),
+            Op::GetU(s("count")),
+            Op::SetI(s("odo"), i64::MAX - 512),
+            Op::GetI(s("odo")),
+            Op::SetI(s("odo"), i64::MAX - 513),
+            Op::GetI(s("odo")),
+            Op::SetI(s("odo"), i64::MIN),
+            Op::GetI(s("odo")),
+            Op::SetI(s("odo"), i64::MIN + 1),
+            Op::GetI(s("odo")),
+            Op::SetI(s("odo"), -(1i64 << 53) - 1),
+            Op::GetI(s("odo")),
+            Op::SetI(s("odo"), i64::MAX),
+            Op::GetI(s("odo")),
+        ];
+        for x in [
+            f64::NAN, f64::INFINITY, f64::NEG_INFINITY, -0.0, -0.5, 0.5, 3.99, -3.99, 9223372036854775808.0, 9223372036854774784.0,
+            -9223372036854775808.0, -9223372036854777856.0, 18446744073709551616.0, 18446744073709549568.0, 1e30,
+        ] {
+            c.ops.push(Op::Poke(0, x));
+            c.ops.push(Op::GetU(s("count")));
+            c.ops.push(Op::Poke(1, x));
+            c.ops.push(Op::GetI(s("odo")));
+            c.ops.push(Op::Poke(5, x));
+            c.ops.push(Op::GetB(s("seconds")));
+            c.ops.push(Op::Poke(6, x));
+            c.ops.push(Op::GetF(s("battery_state")));
+        }
+        add_case(st, c, "integer_range_ends");
+        // several queries on ONE application: the same names with other units / initial values, other name sets in between
+        let cfg = vec![(s("distance"), d(1, 0.0))];
+        let tm = vec![(s("time"), t(1, 0.0)), (s("energy_electric"), e(2, 0.0)), (s("battery_state"), cu("soc", "percent", Fmt::F(100.0)))];
+        let users = vec![
+            User::Some(vec![(s("time"), t(0, 2.0))]),
+            User::Some(vec![(s("time"), t(2, 30.0))]),
+            User::None,
+            User::Some(vec![(s("time"), t(1, 5.0))]),
+            User::Some(vec![(s("battery_state"), cu("soc", "percent", Fmt::F(55.0)))]),
+            User::Some(vec![(s("battery_state"), cu("soc", "percent", Fmt::F(20.0)))]),
+            User::Some(vec![(s("time"), t(0, 2.0))]),
+        ];
+        for n in 2..=5usize {
+            for start in 0..3usize {
+                let steps: Vec<Case> = (0..n).map(|k| with_probe_ops(case(cfg.clone(), tm.clone(), vec![], users[(start + k) % users.len()].clone()))).collect();
+                add_multi(st, steps, "queries_same_names_other_definitions");
+            }
+        }
+        // the services build another vehicle model for the second query: same names, other units and initial values
+        let tm2 = vec![(s("time"), t(2, 10.0)), (s("energy_electric"), e(0, 1.5)), (s("battery_state"), cu("soc", "percent", Fmt::F(80.0)))];
+        let tm3 = vec![(s("trip_distance"), d(2, 0.0)), (s("time"), t(0, 0.0))];
+        for order in [[0usize, 1, 0], [1, 0, 2], [2, 0, 1], [0, 2, 1]] {
+            let tms = [tm.clone(), tm2.clone(), tm3.clone()];
+            let steps: Vec<Case> = order.iter().map(|k| with_probe_ops(case(cfg.clone(), tms[*k].clone(), vec![], User::None))).collect();
+            add_multi(st, steps, "queries_other_vehicle_model");
+        }
+    }
+
+    /// a follow-up query on the same application: the same names with other definitions, or something else entirely
+    fn follow_up(r: &mut Rng, first: &Case) -> Case {
+        let mut c = first.clone();
+        match r.below(4) {
+            0 => {
+                // the same query again
+            }
+            1 => {
+                // the same overrides with other units / initial values
+                if let User::Some(l) = &c.user {
+                    c.user = User::Some(l.iter().map(|(n, f)| (n.clone(), gen_same_kind(r, f))).collect());
+                }
+            }
+            2 => {
+                // the models declare the same names with other units / initial values
+                c.tm = c.tm.iter().map(|(n, f)| (n.clone(), gen_same_kind(r, f))).collect();
+                c.am = c.am.iter().map(|(n, f)| (n.clone(), gen_same_kind(r, f))).collect();
+            }
+            _ => {
+                let other = random_case(r);
+                c.tm = other.tm;
+                c.am = other.am;
+                c.user = other.user;
+            }
+        }
+        let n_ops = r.below(6) as usize;
+        c.ops = gen_ops(r, &c, n_ops);
+        c
+    }
+
     fn random_case(r: &mut Rng) -> Case {
         let mut names: Vec<String> = NAMES.iter().map(|x| x.to_string()).collect();
         r.shuffle(&mut names);
@@ -1316,16 +1596,28 @@ mod state {
         if let Some(p) = &a.replay {
             st.full = true;
             let v: Value = serde_json::from_str(&std::fs::read_to_string(p).unwrap()).unwrap();
-            add_case(&mut st, case_from(&v["case"]), "replay");
+            add_multi(&mut st, multi_from(&v["case"]), "replay");
             st.finish();
             return;
         }
         boundary(&mut st);
+        boundary2(&mut st);
         let mut rng = Rng::new(a.seed ^ 0x5717_A7E5);
         while st.next_id() < a.n {
             let mut r = rng.fork();
             let c = random_case(&mut r);
-            add_case(&mut st, c, "random");
+            if r.chance(1, 4) {
+                let n = 2 + r.below(4) as usize;
+                let mut steps = vec![c];
+                while steps.len() < n {
+                    let prev = if r.chance(1, 2) { steps[0].clone() } else { steps[steps.len() - 1].clone() };
+                    let next = follow_up(&mut r, &prev);
+                    steps.push(next);
+                }
+                add_multi(&mut st, steps, "random_sequence");
+            } else {
+                add_case(&mut st, c, "random");
+            }
         }
         st.finish();
     }
